@@ -342,6 +342,12 @@ def s7(ck, an):
     loop, tname, rname = _entries_loop(fa)
     stores = _keyed_stores(fa, loop) if loop is not None else []
     ok = len(stores) == 1 and stores[0][2] == specv(fa, f"{rname}.allocation", fa.node_of(stores[0][0]).id).key()
+    if loop is None:
+        # comprehension form (a plain accumulation loop is normalised to it): {time: entry.allocation for time, entry in self._rebalancing.items()}
+        want_c = specv(fa, "{t: r.allocation for t, r in self._rebalancing.items()}").key()
+        comps = [fa.sym.canon(x) for x in walk_function(fa.f.node) if isinstance(x, ast.DictComp)]
+        ok = want_c in comps
+        stores = [(None, None, c_) for c_ in comps]
     ck.check(ok, "DEP", "S7.target-weights-field", fa.f.short, fa.f.loc, "target weights report rebalancing.allocation", f"weights_target reports {[g for _, _, g in stores]}", construct="data[time] = rebalancing.allocation")
     fa = an.fa("TrackRecord.transaction_costs")
     loop, tname, rname = _entries_loop(fa)
@@ -377,5 +383,6 @@ def s7(ck, an):
     for short in ("TrackRecord.net_liquidation_value", "TrackRecord.weights_actual", "TrackRecord.weights_target", "TrackRecord.transaction_costs"):
         fa = an.fa(short)
         loops = [n for n in walk_function(fa.f.node) if isinstance(n, ast.For)]
-        ok = any(ast.unparse(l.iter) == "self._rebalancing.items()" and not any(isinstance(x, (ast.Continue, ast.Break)) for x in ast.walk(l)) for l in loops)
+        ok = any(fa.sym.canon(l.iter) == "self._rebalancing.items()" and not any(isinstance(x, (ast.Continue, ast.Break)) for x in ast.walk(l)) for l in loops) or \
+            any(len(x.generators) == 1 and fa.sym.canon(x.generators[0].iter) == "self._rebalancing.items()" and not x.generators[0].ifs for x in walk_function(fa.f.node) if isinstance(x, (ast.DictComp, ast.ListComp)))
         ck.check(ok, "DEP", "S7.all-entries", fa.f.short, fa.f.loc, "the report ranges over every recorded entry", "the report does not range over all of self._rebalancing.items()", construct="for time, rebalancing in self._rebalancing.items()")
